@@ -194,7 +194,10 @@ func (s *Sim) accessOnRequest(r *Req) {
 
 func (s *Sim) isolationOnRequest(r *Req) {
 	// C10.b: the {cid} tag never reaches a service
-	if strings.Contains(r.Subj, "{cid}") || strings.Contains(string(r.Raw), "{cid}") {
+	// (in the resource id, that is: the name part of the subject and the query; a
+	// method may be called anything, and params are the client's own business)
+	rq, _ := r.Payload["query"].(string)
+	if strings.Contains(strings.TrimSuffix(r.Subj, "."+r.Method), "{cid}") || strings.Contains(rq, "{cid}") {
 		s.violate("C10", "b", "cid-tag-to-service", "request %s carries an unexpanded {cid} tag: %s %s", r.ID, r.Subj, trunc(string(r.Raw), 200))
 	}
 	// C10.a: a subject that contains a connection id contains the payload's own
@@ -491,6 +494,18 @@ func (s *Sim) checkAccessJustified(r *Req) {
 			}
 		}
 	}
+	// the header authentication made by the gateway at the upgrade may have been
+	// answered with a resource
+	s.mu.Lock()
+	for _, q := range s.tr.reqs {
+		if q.CIdx == r.CIdx && q.Type == "auth" && strings.HasPrefix(q.Outcome, "rid:") {
+			if name, _ := splitRID(q.Outcome[4:]); name == r.Name {
+				s.mu.Unlock()
+				return
+			}
+		}
+	}
+	s.mu.Unlock()
 	s.violate("C05", "c", "unjustified-access", "access request %s: connection c%d neither asked for nor is directly subscribed to a resource named %s", r.ID, r.CIdx, r.Name)
 }
 
